@@ -173,9 +173,9 @@ for n, what in (("c10_stream_no_master", "no master open"), ("c10_stream_unknown
 # ---------------------------------------------------------------- public-API skeleton documents (Flat, <= 3 next() calls)
 DOC_A = ["structure (element types, payload lengths, cut, read partition, capacity) is concrete and enumerated; only payload bytes are symbolic", "spec Flat (all elements at root level), strict mode",
          "utf8 payloads are concrete ASCII text (all other payload bytes symbolic)"]
-DOCS = [("doc_u3_u1", "[U:3][U:1]"), ("doc_i2_i0", "[I:2][I:0]"), ("doc_f4_f8", "[F:4][F:8]"), ("doc_s2_b3", "[S:2][B:3]"), ("doc_b0_u8", "[B:0][U:8]"),
+DOCS = [("doc_u3_u1", "[U:3][U:1]"), ("doc_i2_i0", "[I:2][I:0]"), ("doc_f4_f8", "[F:4][F:8]"), ("doc_s1_b3", "[S:1][B:3]"), ("doc_b0_u8", "[B:0][U:8]"),
         ("doc_u0_i8", "[U:0][I:8]"), ("doc_i1_s0", "[I:1][S:0]"), ("doc_f3_u1", "[F:3 (invalid float length)][U:1]"), ("doc_i7_f0", "[I:7][F:0 (invalid float length)]"), ("doc_b8_b1", "[B:8][B:1]")]
-QUICK_DOCS = {"doc_u3_u1", "doc_i2_i0", "doc_f4_f8", "doc_s2_b3", "doc_b0_u8", "doc_f3_u1"}
+QUICK_DOCS = {"doc_u3_u1", "doc_i2_i0", "doc_f4_f8", "doc_s1_b3", "doc_b0_u8", "doc_f3_u1"}
 for n, d in DOCS:
     add(n, ["C03", "C05", "C16", "C02"], "doc.rs", "S", "public next() x3-4 on the complete document %s from a slice: each item has the id at its offset, the reference decoding of exactly its payload bytes, "
         "offsets tile the stream; then None, and None again (fused); invalid float length -> CorruptedTagData, no panic" % d,
@@ -207,7 +207,7 @@ for n, ch in (("hdr_tree_known_root", "[Root]"),):
     add(n, ["C11", "C06", "C13", "C17"], "hdr_tree.rs", "U",
         "peek_valid_tag_header with KNOWN-size open masters %s: accepted iff (id in spec | tolerated) and declared path matches the chain (| tolerated) and extent inside every ancestor (| tolerated) and size <= limit; each rejection carries its own kind, id and offset" % ch,
         "every 1-byte id x every 1-2 byte size field; symbolic extents of the known-size masters; all 8 tolerance masks; limit any Option<usize>; base offset < 2^40",
-        tier="quick" if n in ("hdr_tree_known_root",) else "thorough",
+        tier="thorough",
         timeout_s=5400, mem_gb=30, stubs=IO_HASH, big_stack=True, assumes=TREE_A + ["all open masters known-size (unknown-size closing: hdr_tree_chain_*, thorough)"])
 for n, e in (("hdr_tree_first_l3", "L3 (Root/A/B/L3)"), ("hdr_tree_first_l2", "L2 (Root/A/L2)"), ("hdr_tree_first_b", "master B (Root/A/B)"), ("hdr_tree_first_a2", "master A2 (Root/A2)"),
              ("hdr_tree_first_root", "Root"), ("hdr_tree_first_void", "global Void")):
